@@ -135,6 +135,8 @@ pub fn rt() -> &'static tokio::runtime::Runtime {
 pub struct Inst {
     pub dir: PathBuf,
     methods: Option<Arc<Methods>>,
+    /// When set, calls go over HTTP to a server started with `start()` (addr, extra headers).
+    pub http: Option<(String, Vec<String>)>,
     pub calls: u64,
     pub timeout: Duration,
 }
@@ -148,9 +150,15 @@ impl Inst {
         Ok(Inst {
             dir: dir.to_path_buf(),
             methods: Some(Arc::new(methods)),
+            http: None,
             calls: 0,
             timeout: Duration::from_secs(120),
         })
+    }
+
+    /// An instance reached over HTTP (the server owns the database).
+    pub fn over_http(dir: &Path, addr: &str, headers: Vec<String>) -> Inst {
+        Inst { dir: dir.to_path_buf(), methods: None, http: Some((addr.to_string(), headers)), calls: 0, timeout: Duration::from_secs(120) }
     }
 
     pub fn methods(&self) -> Arc<Methods> {
@@ -182,6 +190,14 @@ impl Inst {
 
     pub fn call(&mut self, method: &str, params: Value) -> Resp {
         self.calls += 1;
+        if let Some((addr, headers)) = &self.http {
+            let id = NEXT_ID.fetch_add(1, Ordering::Relaxed);
+            let req = json!({"jsonrpc":"2.0","id":id,"method":method,"params":params}).to_string();
+            return match crate::http::post(addr, headers, &req, self.timeout) {
+                Ok(r) => parse_response(&r.body),
+                Err(e) => Resp::Err { code: -32000, message: format!("http: {}", e), data: Value::Null },
+            };
+        }
         call_methods(&self.methods(), method, params, self.timeout)
     }
 
